@@ -48,15 +48,15 @@ ToLengthPrefixed(d) ==
     ELSE Prefixed(Nals(d))
 
 (* Inverse reading of a length-prefixed string: it must parse exactly to its  *)
-(* end.  Returns the payload list, or <<-1>> if it does not parse.            *)
+(* end.  Returns the payload list, or << <<-1>> >> if it does not parse.            *)
 RECURSIVE ParsePrefixed(_, _)
 ParsePrefixed(s, p) ==
     IF p = Len(s) + 1 THEN << >>
-    ELSE IF p + 3 > Len(s) \/ ~FitsU32(s, p) THEN << -1 >>
+    ELSE IF p + 3 > Len(s) \/ ~FitsU32(s, p) THEN << << -1 >> >>
     ELSE LET n == U32(s, p) IN
-         IF p + 3 + n > Len(s) THEN << -1 >>
+         IF p + 3 + n > Len(s) THEN << << -1 >> >>
          ELSE LET rest == ParsePrefixed(s, p + 4 + n) IN
-              IF rest = << -1 >> THEN << -1 >>
+              IF rest = << << -1 >> >> THEN << << -1 >> >>
               ELSE << Slice(s, p + 4, p + 3 + n) >> \o rest
 
 (* C14, first sentence, as a predicate over (input, output).                  *)
